@@ -26,6 +26,10 @@ def numeric_check(doc, model):
     """-> list of (what, detail); [] when the loaded model computes what the document says"""
     bad = []
     compared = 0
+    for msg in G.closed_system(model)[:2]:
+        bad.append(('the loaded model is not a closed equation system: ' + msg, {}))
+    if bad:
+        return bad, 0
     for k in range(NSTATES):
         try:
             vals, dsi, classes, chosen, si, complete = G.ref_solve(doc, 1000 + k)
@@ -50,8 +54,8 @@ def numeric_check(doc, model):
         for (c, n), x in sorted(vals.items()):
             name = '%s$%s' % (c, n)
             if name not in iv:
-                bad.append(('variable %s has the value %r in the document but no value can be computed from the loaded '
-                            'model' % (name, x), {'variable': name}))
+                bad.append(('variable %s has the value %r in the document but no value in the loaded model: %s'
+                            % (name, x, iv['?why'].get(name, '?')), {'variable': name}))
                 break
             compared += 1
             if not G.close(x, iv[name], 1e-9) and abs(x - iv[name]) > 1e-12 * mags.get((c, n), 0.0):
